@@ -94,6 +94,14 @@ def truthy : Val → Bool
   | .list xs => !xs.isEmpty
   | .dict kvs => !kvs.isEmpty
 
+/-- the truth value where the universe determines it.  `.dict []` stands for an empty Python dict
+(false) as well as for an object without attributes (true: a pydantic config object whose
+`.dict(exclude_unset=True)` is empty still makes `{% if config %}` succeed) — not stated. -/
+def truthOf (v : Val) : Except Err Bool :=
+  match v with
+  | .dict [] => .error (.unmodelled "truth value of an empty dict or object")
+  | v => .ok (truthy v)
+
 /-- `str(value)` as `{{ value }}` writes it (Undefined prints as the empty string) -/
 def toStr : Val → Except Err (List Char)
   | .undef => .ok []
@@ -215,13 +223,13 @@ def eval (env : Env) : Expr → Except Err Val
   | .int n => .ok (.int n)
   | .bool b => .ok (.bool b)
   | .none => .ok .none
-  | .not e => do pure (.bool (!truthy (← eval env e)))
+  | .not e => do pure (.bool (!(← truthOf (← eval env e))))
   | .and a b => do
     let x ← eval env a
-    if truthy x then eval env b else pure x
+    if (← truthOf x) then eval env b else pure x
   | .or a b => do
     let x ← eval env a
-    if truthy x then pure x else eval env b
+    if (← truthOf x) then pure x else eval env b
   | .cmp op a b => do
     let x ← eval env a
     let y ← eval env b
@@ -316,7 +324,7 @@ def render (env : Env) : Tpl → Except Err (Out × Env)
     pure (⟨s, [(e, s)]⟩, env)
   | .ite c thn els => do
     let v ← eval env c
-    if truthy v then renderL env thn else renderL env els
+    if (← truthOf v) then renderL env thn else renderL env els
   | .forIn vars iter body => do
     let items ← iterate (← eval env iter)
     -- every iteration starts from the environment before the loop; nothing leaks out of the body
